@@ -119,7 +119,9 @@ def main(pid, argv=None):
     known_hits = {}
     for r in viol:
         key = f"{r['harness']}:{r['label']}"
-        k = match_known(known, pid, key)
+        # known findings are matched on harness:label@cell so that the same claim failing in a different branch
+        # cell is still reported
+        k = match_known(known, pid, key + "@" + str(r.get("cell", "")))
         if k is not None:
             known_hits.setdefault(k["id"], (k, []))[1].append(key)
         else:
@@ -179,6 +181,7 @@ def main(pid, argv=None):
     evidence = dict(property_id=pid, tier=tier, seed=seed, level=level, coverage=cov,
                     assumptions=getattr(mod, "ASSUMPTIONS", []), wall_s=round(wall, 2),
                     violations=len(new_viol),
+                    violation_keys=sorted({f"{r['harness']}:{r['label']}@{r.get('cell', '')}" for r in viol})[:300],
                     inconclusive=[{k: r.get(k) for k in ("harness", "label", "status", "reason", "cell")} for r in unknown][:50],
                     harness_errors=[(n, str(m)[:500]) for n, m in harness_errors])
     os.makedirs(os.path.join(ROOT, "evidence"), exist_ok=True)
